@@ -616,6 +616,9 @@ func buildScenarios(t *testing.T) []scen {
 						s := sil
 						s.CtxKind, s.CtxDeadline, s.Timeout = ck, 10*time.Second, 3*time.Second
 						scenList = append(scenList, s)
+						// the connect itself takes two of the three seconds: the limit covers dial AND handshake
+						s.DialDelay = 2 * time.Second
+						scenList = append(scenList, s)
 					}
 				}
 			}
